@@ -34,6 +34,20 @@ def unquote(tla_string_literal):
 
 
 LINE_RE = re.compile(r'^<<"(TR|META|CASE|VERDICT)", (".*")>>$')
+CASES_RE = re.compile(r'^"CASES (\[[0-9, ]*\])"$')
+
+
+def case_names():
+    """Names of the non-vacuity cases, in the order of the Cases block of spec/Scn.tla (register 200+i <-> i-th name)."""
+    text = open(os.path.join(SPEC_DIR, 'Scn.tla')).read()
+    blk = text[text.index('\nCases == <<'):text.index('\nNCases ==')]
+    return re.findall(r'^  <<"([^"]+)", ', blk, re.M)
+
+
+def cases_of(counts):
+    names = case_names()
+    return {n: int(counts[i]) for i, n in enumerate(names) if i < len(counts)}
+
 STATS_RE = re.compile(r'^(\d+) states generated, (\d+) distinct states found')
 
 
@@ -55,12 +69,16 @@ def run(module, cfg_text, workdir, workers=1, simulate=None, timeout=3600, heap=
     proc = subprocess.Popen(cmd, cwd=workdir, stdout=subprocess.PIPE, stderr=subprocess.STDOUT, env=env,
                             text=True, errors='replace')
     res = {'meta': None, 'traces': [], 'generated': 0, 'distinct': 0, 'violation': None, 'error': None,
-           'cmd': ' '.join(cmd), 'other': []}
+           'cmd': ' '.join(cmd), 'other': [], 'cases': {}}
     err_lines = []
     in_error = False
     try:
         for line in proc.stdout:
             line = line.rstrip('\n')
+            mc = CASES_RE.match(line)
+            if mc:
+                res['cases'] = cases_of(json.loads(mc.group(1)))
+                continue
             m = LINE_RE.match(line)
             if m:
                 kind, payload = m.group(1), json.loads(unquote(m.group(2)))
